@@ -253,6 +253,42 @@ pub open spec fn conn_read_body_post(pre: HttpConn, post: HttpConn, r: Result<Re
     }
 }
 
+// ---- clauses of the method contracts restated per property (each is implied by the conn_*_post contract above; a
+// change that breaks one of them is then reported for the property it belongs to)
+// C08: a failed send leaves a prefix of the one serialisation; any byte sent => write side shut down; none sent =>
+// the response is still owed and the wire untouched; after shutdown nothing is written
+pub open spec fn wr_failure_clause(pre: HttpConn, post: HttpConn, resp: Response, r: Result<(), HttpError>) -> bool {
+    &&& (pre.write_state == WriteState::Response && r is Err) ==> {
+            &&& wire(pre).is_prefix_of(wire(post)) && wire(post).is_prefix_of(wire(pre) + ser(resp, is_5xx_code(resp.code)))
+            &&& wire(post).len() > wire(pre).len() ==> post.write_state == WriteState::Shutdown
+            &&& wire(post).len() == wire(pre).len() ==> post.write_state == WriteState::Response
+        }
+    &&& pre.write_state == WriteState::Shutdown ==> wire(post) == wire(pre) && post.write_state == WriteState::Shutdown
+}
+// C20: a response is sent with close = true exactly when it is a 5xx
+pub open spec fn wr_close_clause(pre: HttpConn, post: HttpConn, resp: Response, r: Result<(), HttpError>) -> bool {
+    (pre.write_state == WriteState::Response && r is Ok) ==> wire(post) == wire(pre) + ser(resp, is_5xx_code(resp.code))
+}
+// C09: a declared length over the limit is refused before anything is read; what is accepted has the declared
+// length and fits the limit
+pub open spec fn rb_limit_clause(pre: HttpConn, post: HttpConn, r: Result<RequestBody, HttpError>, max: Option<u64>) -> bool {
+    &&& body_guard_err(pre.read_state, max) == Some(HttpError::BodyTooLong) ==> r == Err::<RequestBody, HttpError>(HttpError::BodyTooLong) && same_conn(pre, post)
+    &&& (pre.read_state is Body && r is Ok) ==> body_guard_err(pre.read_state, max) is None && body_read_result(pre.read_state->len, max, r)
+}
+// C03: chunked / gzip bodies are refused when the body is read, before anything is read
+pub open spec fn rb_coding_clause(pre: HttpConn, post: HttpConn, r: Result<RequestBody, HttpError>, max: Option<u64>) -> bool {
+    (pre.read_state matches ReadState::Body { chunked, gzip, .. } && (chunked || gzip))
+        ==> r == Err::<RequestBody, HttpError>(HttpError::UnsupportedTransferEncoding) && same_conn(pre, post)
+}
+// C03: the body read state is exactly the framing the request head declared
+pub open spec fn rr_framing_clause(pre: HttpConn, post: HttpConn, r: Result<Request, HttpError>) -> bool {
+    (pre.write_state == WriteState::None && pre.read_state is Head && r is Ok) ==> post.read_state == (match r->Ok_0.body {
+        RequestBody::PendingKnown(len) => ReadState::Body { len: Some(len), expect_continue: r->Ok_0.expect_continue, chunked: r->Ok_0.chunked, gzip: r->Ok_0.gzip },
+        RequestBody::PendingUnknown => ReadState::Body { len: None, expect_continue: r->Ok_0.expect_continue, chunked: r->Ok_0.chunked, gzip: r->Ok_0.gzip },
+        _ => ReadState::Head,
+    })
+}
+
 // ---- C08 at the level of handle_http_conn_once / handle_http_conn
 // the wire after `pre` holds nothing more, or exactly one complete interim 100-continue
 pub open spec fn clean_boundary(pre: HttpConn, post: HttpConn) -> bool {
@@ -289,28 +325,6 @@ pub broadcast proof fn lemma_body_err(pre: HttpConn, post: HttpConn, r: Result<R
         }
     }
 }
-// the response an error is turned into (src/http_error.rs; the full table is checked per variant by the Kani set c20)
-pub open spec fn error_response(e: HttpError, r: Response) -> bool {
-    if e is Disconnected { r.kind == ResponseKind::DropConnection }
-    else { r.kind == ResponseKind::Normal && (r.code == 400 || r.code == 413 || r.code == 431 || r.code == 505 || r.code == 500) }
-}
-impl vstd::std_specs::convert::FromSpecImpl<&'static str> for ResponseBody {
-    open spec fn obeys_from_spec() -> bool { false }
-    uninterp spec fn from_spec(s: &'static str) -> ResponseBody;
-}
-impl vstd::std_specs::convert::FromSpecImpl<String> for ResponseBody {
-    open spec fn obeys_from_spec() -> bool { false }
-    uninterp spec fn from_spec(s: String) -> ResponseBody;
-}
-impl vstd::std_specs::convert::FromSpecImpl<HttpError> for Response {
-    open spec fn obeys_from_spec() -> bool { false }
-    uninterp spec fn from_spec(e: HttpError) -> Response;
-}
-impl HttpError {
-    // builds the text of the 400/431/505 bodies with to_string(): outside the properties decided here
-    #[verifier::external_body]
-    pub fn description(&self) -> String { unimplemented!() }
-}
 // permit::Permit, safina::executor token: opaque
 #[verifier::external_body]
 pub struct Permit { _p: () }
@@ -323,5 +337,4 @@ pub struct Token { _p: () }
 #[verifier::external_body]
 pub fn verif_print() { unimplemented!() }
 // std calls on the error path whose results no obligation here depends on (no contract assumed beyond the types)
-pub assume_specification [std::string::String::into_bytes] (_0: std::string::String) -> std::vec::Vec<u8>;
 pub assume_specification<T: std::ops::Deref> [std::option::Option::<T>::as_deref] (_0: &std::option::Option<T>) -> std::option::Option<&<T as std::ops::Deref>::Target>;
